@@ -656,7 +656,7 @@ theorem Inv.mk_uninit (b : Nat) (mm : Bool) :
     Inv b ⟨⟨false, 0, false, mm, false⟩, b, 0⟩ ⟨none, []⟩ ⟨[], []⟩ :=
   ⟨rfl, by simp [Spec.all], rfl, by simp [Spec.all], by simp [Spec.all], by simp, by simp⟩
 
-theorem step_uninit (b : Nat) (mm : Bool) (op : Op)
+theorem step_uninit (b : Nat) (hb : 0 < b) (mm : Bool) (op : Op)
     (hop : opOK b ⟨⟨false, 0, false, mm, false⟩, b, 0⟩ op) :
     StepOK b ⟨⟨false, 0, false, mm, false⟩, b, 0⟩ ⟨none, []⟩ ⟨[], []⟩ op := by
   have hI := Inv.mk_uninit b mm
@@ -704,18 +704,35 @@ theorem step_uninit (b : Nat) (mm : Bool) (op : Op)
     · simpa [Disk.applyAll, Disk.apply] using hI
     · simp
   | reopen =>
-    exact StepOK.of_reject hI .valueError .valueError
-      (by simp [Store.step, Arr.close, Arr.open, Disk.applyAll]) (by simp [specStep])
+    refine StepOK.of_eq none [] ⟨⟨false, 0, false, false, false⟩, b, 0⟩ ⟨[], []⟩ ?_ ?_ ?_ ?_ ?_
+      (hcr _ _ _)
+    · simp [Store.step, Arr.close, Arr.open, Disk.applyAll]
+    · simp [specNext, specStep, Spec.all]
+    · simp [specErr, specStep]
+    · simpa [Disk.applyAll] using Inv.mk_uninit b false
+    · simp
   | reopenN n =>
-    exact StepOK.of_reject hI .valueError .valueError
-      (by simp [Store.step, Arr.close, Arr.open, Disk.applyAll]) (by simp [specStep])
+    have hn : n = 0 := by
+      have h : n * b ≤ 0 := hop
+      rcases Nat.eq_zero_or_pos n with h0 | h0
+      · exact h0
+      · have := Nat.mul_pos h0 hb
+        omega
+    subst hn
+    refine StepOK.of_eq none [] ⟨⟨false, 0, false, false, false⟩, b, 0⟩ ⟨[], []⟩ ?_ ?_ ?_ ?_ ?_
+      (hcr _ _ _)
+    · simp [Store.step, Arr.close, Arr.open, Disk.applyAll]
+    · simp [specNext, specStep, Spec.all]
+    · simp [specErr, specStep]
+    · simpa [Disk.applyAll] using Inv.mk_uninit b false
+    · simp
   | pickle =>
-    refine StepOK.of_eq (some .valueError) [.sync] ⟨⟨false, 0, false, mm, false⟩, b, 0⟩ ⟨[], []⟩
+    refine StepOK.of_eq none [.sync] ⟨⟨false, 0, false, false, false⟩, b, 0⟩ ⟨[], []⟩
       ?_ ?_ ?_ ?_ ?_ (hcr _ _ _)
     · simp [Store.step, Arr.flush, Arr.writeHeader, Arr.open, Disk.applyAll, Disk.apply]
     · simp [specNext, specStep]
     · simp [specErr, specStep]
-    · simpa [Disk.applyAll, Disk.apply] using hI
+    · simpa [Disk.applyAll, Disk.apply] using Inv.mk_uninit b false
     · simp
 
 theorem step_ok (b : Nat) (hb : 0 < b) (s : Store) (d : Disk) (sp : Spec) (hI : Inv b s d sp)
@@ -735,7 +752,7 @@ theorem step_ok (b : Nat) (hb : 0 < b) (s : Store) (d : Disk) (sp : Spec) (hI : 
     subst ha1 ha2 hh hdt hpe hce
     simp only [List.length_nil, List.append_nil, Nat.zero_mul] at h3 h4
     subst h3 h4
-    exact step_uninit b' mm op hop
+    exact step_uninit b' hb mm op hop
   | true =>
     obtain ⟨⟨init, rows, pending, mm, closed⟩, b', nB⟩ := s
     obtain ⟨hdr, data⟩ := d
